@@ -926,7 +926,7 @@ func (e *Enc) contractCallSig(fr *Frame, fc *FuncContract, callee *ssa.Function,
 			continue
 		}
 		for _, part := range splitConjuncts(c.Expr) {
-			if mentionsCallGhosts(part) || mentionsLet(part) {
+			if e.mentionsCallGhostsDeep(part, map[string]bool{}) || mentionsLet(part) {
 				// postconditions about the callee's own direct calls say nothing in the caller
 				continue
 			}
@@ -993,10 +993,53 @@ func (e *Enc) contractEnv(fc *FuncContract, callee *ssa.Function, sig *types.Sig
 	return env
 }
 
+// mentionsCallGhostsDeep: like mentionsCallGhosts, but also looks into the bodies of the spec
+// functions the expression applies (nVal(), nRejTrace(), ... are defined in terms of calls()).
+func (e *Enc) mentionsCallGhostsDeep(x SExpr, seen map[string]bool) bool {
+	if mentionsCallGhosts(x) {
+		return true
+	}
+	found := false
+	var walk func(SExpr)
+	walk = func(y SExpr) {
+		if found || y == nil {
+			return
+		}
+		switch n := y.(type) {
+		case *SCall:
+			name := n.Fn
+			if sf := e.cs.SpecFns[name]; sf != nil && sf.Body != nil && !seen[name] {
+				seen[name] = true
+				if e.mentionsCallGhostsDeep(sf.Body, seen) {
+					found = true
+					return
+				}
+			}
+			for _, a := range n.Args {
+				walk(a)
+			}
+		case *SBin:
+			walk(n.L)
+			walk(n.R)
+		case *SUn:
+			walk(n.X)
+		case *SQuant:
+			walk(n.Body)
+		case *SField:
+			walk(n.X)
+		case *SIndex:
+			walk(n.X)
+			walk(n.I)
+		}
+	}
+	walk(x)
+	return found
+}
+
 func mentionsCallGhosts(x SExpr) bool {
 	switch n := x.(type) {
 	case *SCall:
-		if n.Fn == "calls" || n.Fn == "lastret" || n.Fn == "lastarg" || n.Fn == "firstret" || n.Fn == "countret" || n.Fn == "countrecv" || n.Fn == "recvs" {
+		if n.Fn == "calls" || n.Fn == "lastret" || n.Fn == "lastarg" || n.Fn == "firstret" || n.Fn == "countret" || n.Fn == "countrecv" || n.Fn == "recvs" || n.Fn == "passed" || n.Fn == "alltrue" {
 			return true
 		}
 		for _, a := range n.Args {
